@@ -1,0 +1,182 @@
+//go:build verif
+
+package signal
+
+// Contracts for the contract-based deductive verification kept in /verif
+// (see /verif/DESIGN.md). This file is compiled only with the build tag
+// "verif" and contains nothing but comments: it adds no code to the package.
+//
+// Syntax: one block per function, keyed by <Type>.<Method> or <Func>; the
+// names in parentheses bind the receiver and the parameters positionally.
+// Clause labels are [name: properties]. $i is the induction variable of the
+// loop the invariant belongs to, $iN that of loop N (loops are numbered in
+// source order). old(e) is e in the function's entry state.
+
+// ---------------------------------------------------------------------------
+// getters
+// ---------------------------------------------------------------------------
+
+//@ func channels.Channels(c)
+//@   props C01 C02 C03 C05 C14 C15 C20
+//@   pure
+//@   ensures result == c
+
+//@ func bitDepth.BitDepth(bd)
+//@   props C05 C06 C07 C08 C09 C13
+//@   pure
+//@   ensures result == bd
+
+//@ func channels.BufferIndex(c, channel, idx)
+//@   props C01 C02 C14
+//@   theory defined
+//@   pure
+//@   requires inInt64(bi(c, 0, idx)) && inInt64(bi(c, channel, idx))
+//@   ensures result == bi(c, channel, idx)
+
+//@ func Buffer.Len(b)
+//@   props C01 C03 C04 C05 C20
+//@   pure
+//@   requires b >= 0
+//@   ensures result == len(b.data)
+
+//@ func Buffer.Cap(b)
+//@   props C03 C04 C10 C20
+//@   pure
+//@   requires b >= 0
+//@   ensures result == cap(b.data)
+
+//@ func Buffer.Sample(b, i)
+//@   props C01 C03 C05 C14
+//@   pure
+//@   requires b >= 0 && 0 <= i && i < len(b.data)
+//@   ensures result == at(b, i)
+
+//@ func Buffer.SetSample(b, i, v)
+//@   props C01 C03 C05 C14
+//@   requires b >= 0 && 0 <= i && i < len(b.data)
+//@   ensures at(b, i) == v
+//@   ensures sameExcept(b, i, i + 1)
+//@   modifies H(b)
+
+//@ func min(v1, v2)
+//@   props C01 C05 C20
+//@   pure
+//@   ensures result == min(v1, v2)
+
+//@ func mustSame(a, b, panicStr)
+//@   props C15
+//@   insts int
+//@   panics-iff a != b
+
+//@ func Buffer.Capacity(b)
+//@   props C02 C03 C04 C13 C14 C20
+//@   theory defined
+//@   pure
+//@   requires wf(b)
+//@   ensures result == ite(b.channels == 0, 0, fdiv(cap(b.data), b.channels))
+
+//@ func Buffer.Length(b)
+//@   props C01 C02 C04 C05 C13 C14 C20
+//@   mode realfloat
+//@   theory defined
+//@   pure
+//@   requires wf(b)
+//@   rndhint cdiv(len(b.data), b.channels)
+//@   ensures result == ite(b.channels == 0, 0, cdiv(len(b.data), b.channels))
+
+//@ func ChannelLength(sliceLen, channels)
+//@   props C01 C20
+//@   mode realfloat
+//@   theory defined
+//@   pure
+//@   requires 0 <= sliceLen && sliceLen <= pow2(48) && 0 <= channels
+//@   rndhint cdiv(sliceLen, channels)
+//@   ensures[count: C01] channels >= 1 ==> result == cdiv(sliceLen, channels)
+//@   ensures[zero-channels: C20] channels == 0 ==> result == 0
+
+// ---------------------------------------------------------------------------
+// views
+// ---------------------------------------------------------------------------
+
+//@ func Buffer.Slice(b, start, end)
+//@   props C02 C12 C18 C19 C20
+//@   requires wf(b)
+//@   requires b.channels >= 1 || (start == 0 && end == 0)
+//@   hint bi_sub(b.channels, fdiv(cap(b.data), b.channels), start)
+//@   hint mul_div(b.channels, fdiv(cap(b.data), b.channels) - start)
+//@   hint bi_le(b.channels, start, end)
+//@   hint bi_le(b.channels, end, fdiv(cap(b.data), b.channels))
+//@   hint bi_le(b.channels, 0, start)
+//@   hint bi_lt_inv(b.channels, start, end)
+//@   hint bi_lt_inv(b.channels, end, fdiv(cap(b.data), b.channels))
+//@   hint bi_lt_inv(b.channels, 0, start)
+//@   panics-iff[bounds: C02] start < 0 || start > end || end > ite(b.channels == 0, 0, fdiv(cap(b.data), b.channels))
+//@   ensures[fresh-header] fresh(result)
+//@   ensures[shape] result.channels == b.channels && result.bitDepth == b.bitDepth
+//@   ensures[window] ptr(result.data) == ptr(b.data) + bi(b.channels, 0, start)
+//@     | && len(result.data) == bi(b.channels, 0, end) - bi(b.channels, 0, start)
+//@     | && cap(result.data) == cap(b.data) - bi(b.channels, 0, start)
+//@   ensures[wf] wf(result)
+//@   ensures[parent-unchanged] heapSame(b) && hdrSameExcept(result) && brk(b) == old(brk(b))
+//@   ensures[allocs: C18] allocs <= old(allocs) + 1
+//@   modifies hdr(b) obj(b) allocs
+
+//@ func Buffer.AppendSample(b, v)
+//@   props C04 C12 C18 C20
+//@   requires wf(b)
+//@   ensures[stored] old(len(b.data)) < old(cap(b.data)) ==> len(b.data) == old(len(b.data)) + 1
+//@     | && at(b, old(len(b.data))) == v && sameExcept(b, old(len(b.data)), old(len(b.data)) + 1)
+//@   ensures[full-noop] old(len(b.data)) == old(cap(b.data)) ==> len(b.data) == old(len(b.data)) && heapSame(b)
+//@   ensures[storage-identity] cap(b.data) == old(cap(b.data)) && ptr(b.data) == old(ptr(b.data))
+//@     | && b.channels == old(b.channels) && b.bitDepth == old(b.bitDepth) && hdrSameExcept(b)
+//@   ensures[no-alloc: C04 C18] allocs == old(allocs) && brk(b) == old(brk(b))
+//@   ensures[wf] wf(b)
+//@   modifies H(b) hdr(b)
+
+//@ func Buffer.Channel(b, c)
+//@   props C14 C18 C19
+//@   pure
+//@   ensures result.Buffer == b && result.channel == c
+
+//@ func C.BufferIndex(c, channel, index)
+//@   theory defined
+//@   props C14
+//@   pure
+//@   requires wf(c.Buffer) && 0 <= c.channel && c.channel < c.Buffer.channels
+//@   requires 0 <= index && index < cdiv(len(c.Buffer.data), c.Buffer.channels) && aligned(c.Buffer)
+//@   ensures result == bi(c.Buffer.channels, c.channel, index)
+
+//@ func C.Channels(c)
+//@   props C14
+//@   pure
+//@   ensures result == 1
+
+//@ func C.Capacity(c)
+//@   props C14
+//@   pure
+//@   requires wf(c.Buffer)
+//@   ensures result == ite(c.Buffer.channels == 0, 0, fdiv(cap(c.Buffer.data), c.Buffer.channels))
+
+//@ func C.Length(c)
+//@   props C14
+//@   pure
+//@   requires wf(c.Buffer)
+//@   ensures result == ite(c.Buffer.channels == 0, 0, cdiv(len(c.Buffer.data), c.Buffer.channels))
+
+//@ func C.Sample(c, index)
+//@   theory defined
+//@   props C14 C18 C19
+//@   pure
+//@   requires wf(c.Buffer) && 0 <= c.channel && c.channel < c.Buffer.channels
+//@   requires 0 <= index && index < cdiv(len(c.Buffer.data), c.Buffer.channels) && aligned(c.Buffer)
+//@   ensures result == at(c.Buffer, bi(c.Buffer.channels, c.channel, index))
+
+//@ func C.SetSample(c, index, s)
+//@   theory defined
+//@   props C14 C18 C19
+//@   requires wf(c.Buffer) && 0 <= c.channel && c.channel < c.Buffer.channels
+//@   requires 0 <= index && index < cdiv(len(c.Buffer.data), c.Buffer.channels) && aligned(c.Buffer)
+//@   ensures at(c.Buffer, bi(c.Buffer.channels, c.channel, index)) == s
+//@   ensures sameExcept(c.Buffer, bi(c.Buffer.channels, c.channel, index), bi(c.Buffer.channels, c.channel, index) + 1)
+//@   ensures hdrSame(c.Buffer) && allocs == old(allocs)
+//@   modifies H(c.Buffer)
